@@ -309,15 +309,18 @@ def client2Of (sg : Conditional.Surgery) : Header :=
   else client1Of sg
 
 /-- the three exits of the row `w:304`: the self-locked re-entry of a writer whose disk writes are disabled
-    (disk untouched), `500` when `Close` fails, the ordinary re-entry with `skipRevalidate = false` -/
+    (disk untouched), `500` when `Close` fails, and — the confirmation recorded on the disk (`republish … = (d1, true)`)
+    — the re-entry with `skipRevalidate = true` (since the fix: commit for the two-values loop) -/
 theorem row304_cases (d : Disk) (ai : Header) (cs : List Contact) (w : Writer) (sg : Conditional.Surgery)
     (resp : Resp) (now : Int) :
     (w.diskWritesDisabled = true ∧ row304 d ai cs w sg resp now
           = .reenterLocked d (client2Of sg) (ai.set kStatus b!"revalidated") cs "w:304>")
     ∨ (w.diskWritesDisabled = false ∧ ∃ d1, row304 d ai cs w sg resp now
           = .done { disk := d1, out := { status := 500 }, contacts := cs, label := "w:304-closeerr" })
-    ∨ (w.diskWritesDisabled = false ∧ ∃ d1, row304 d ai cs w sg resp now
-          = .reenter d1 (client2Of sg) (ai.set kStatus b!"revalidated") false cs "w:304>") := by
+    ∨ (w.diskWritesDisabled = false ∧ ∃ d1,
+          republish d w now (some (Conditional.dropZeroContentLength resp.header)) = (d1, true)
+          ∧ row304 d ai cs w sg resp now
+              = .reenter d1 (client2Of sg) (ai.set kStatus b!"revalidated") true cs "w:304>") := by
   unfold row304
   dsimp only
   by_cases hw : w.diskWritesDisabled = true
@@ -329,7 +332,7 @@ theorem row304_cases (d : Disk) (ai : Header) (cs : List Contact) (w : Writer) (
     rcases r with ⟨d1, ok⟩
     cases ok with
     | false => exact Or.inr (Or.inl ⟨hw', d1, rfl⟩)
-    | true => exact Or.inr (Or.inr ⟨hw', d1, rfl⟩)
+    | true => exact Or.inr (Or.inr ⟨hw', d1, rfl, rfl⟩)
 
 /-- the exits of a writer row after the origin's answer: an answer (never labelled `…:stale`), the row
     `w:304` (the origin answered 304 to a validator of the stored entry), or the re-entry with
@@ -339,7 +342,7 @@ theorem afterAnswer_cases (cfg : Config) (now : Int) (keys : List Key) (rr : Opt
     (sg : Conditional.Surgery) (resp : Resp) :
     (∃ a, afterAnswer cfg now keys rr d ai cs reval w sg resp = .done a ∧ ¬ EndsStale a.label)
     ∨ (∃ ai', afterAnswer cfg now keys rr d ai cs reval w sg resp = row304 d ai' cs w sg resp now
-          ∧ sg.used.length > 0 ∧ resp.status = 304)
+          ∧ sg.used.length > 0 ∧ resp.status = 304 ∧ (getCacheControlDirectives resp.header).doNotCache = false)
     ∨ (∃ ai' : Header, afterAnswer cfg now keys rr d ai cs reval w sg resp
             = .reenter d (client1Of sg) (ai'.set kStatus b!"stale") true cs "w:stale>"
           ∧ staleIfErrorOf reval resp = true) := by
@@ -349,7 +352,7 @@ theorem afterAnswer_cases (cfg : Config) (now : Int) (keys : List Key) (rr : Opt
   · dsimp only
     split
     · rename_i hc
-      exact Or.inr (Or.inl ⟨_, rfl, hc.1, hc.2.1⟩)
+      exact Or.inr (Or.inl ⟨_, rfl, hc.1, hc.2.1, by simpa using hc.2.2⟩)
     · split
       · exact Or.inl ⟨_, rfl, by dsimp only; decide⟩
       · split
@@ -368,36 +371,42 @@ theorem afterAnswer_done_not_stale {cfg : Config} {now : Int} {keys : List Key} 
   rcases afterAnswer_cases cfg now keys rr d ai cs reval w sg resp with ⟨a', h1, h2⟩ | ⟨ai', h1, _⟩ | ⟨ai', h1, _⟩
   · rw [h1] at h; injection h with h; subst h; exact h2
   · rw [h1] at h
-    rcases row304_cases d ai' cs w sg resp now with ⟨_, h2⟩ | ⟨_, d1, h2⟩ | ⟨_, d1, h2⟩
+    rcases row304_cases d ai' cs w sg resp now with ⟨_, h2⟩ | ⟨_, d1, h2⟩ | ⟨_, d1, _, h2⟩
     · rw [h2] at h; cases h
     · rw [h2] at h; injection h with h; subst h; dsimp only; decide
     · rw [h2] at h; cases h
   · rw [h1] at h; cases h
 
-/-- the re-entries of a writer row: with `skipRevalidate = true` only from the row `w:stale`
+/-- the re-entries of a writer row, all with `skipRevalidate = true`: from the row `w:stale`
     (`staleIfErrorOf reval resp`: origin status ≥ 400 inside the entry's stale-if-error allowance;
-    disk untouched), with `skipRevalidate = false` only from the row `w:304` -/
+    disk untouched), or from the row `w:304` (the origin answered 304 to a validator of the stored
+    entry, the answer is cacheable, disk writes are enabled and the confirmation was recorded:
+    `republish … = (d', true)`) -/
 theorem afterAnswer_reenter_inv {cfg : Config} {now : Int} {keys : List Key} {rr : Option Range.ReqRange} {d : Disk}
     {ai : Header} {cs : List Contact} {reval : Option (Key × Stored × Int)} {w : Writer}
     {sg : Conditional.Surgery} {resp : Resp}
     {d' : Disk} {client' ai' : Header} {skip' : Bool} {cs' : List Contact} {tag : String}
     (h : afterAnswer cfg now keys rr d ai cs reval w sg resp = .reenter d' client' ai' skip' cs' tag) :
-    cs' = cs ∧
-    ((skip' = true ∧ tag = "w:stale>" ∧ d' = d ∧ client' = client1Of sg ∧ staleIfErrorOf reval resp = true)
-     ∨ (skip' = false ∧ tag = "w:304>" ∧ client' = client2Of sg ∧ resp.status = 304 ∧ sg.used.length > 0
-          ∧ w.diskWritesDisabled = false)) := by
-  rcases afterAnswer_cases cfg now keys rr d ai cs reval w sg resp with ⟨a', h1, _⟩ | ⟨ai1, h1, hu, hst⟩ | ⟨ai1, h1, hs⟩
+    cs' = cs ∧ skip' = true ∧
+    ((tag = "w:stale>" ∧ d' = d ∧ client' = client1Of sg ∧ staleIfErrorOf reval resp = true)
+     ∨ (tag = "w:304>" ∧ client' = client2Of sg ∧ resp.status = 304 ∧ sg.used.length > 0
+          ∧ (getCacheControlDirectives resp.header).doNotCache = false
+          ∧ w.diskWritesDisabled = false
+          ∧ republish d w now (some (Conditional.dropZeroContentLength resp.header)) = (d', true))) := by
+  rcases afterAnswer_cases cfg now keys rr d ai cs reval w sg resp with
+    ⟨a', h1, _⟩ | ⟨ai1, h1, hu, hst, hdc⟩ | ⟨ai1, h1, hs⟩
   · rw [h1] at h; cases h
   · rw [h1] at h
-    rcases row304_cases d ai1 cs w sg resp now with ⟨_, h2⟩ | ⟨_, d1, h2⟩ | ⟨hw, d1, h2⟩
+    rcases row304_cases d ai1 cs w sg resp now with ⟨_, h2⟩ | ⟨_, d1, h2⟩ | ⟨hw, d1, hrep, h2⟩
     · rw [h2] at h; cases h
     · rw [h2] at h; cases h
     · rw [h2] at h
       injection h with e1 e2 e3 e4 e5 e6
-      exact ⟨e5.symm, Or.inr ⟨e4.symm, e6.symm, e2.symm, hst, hu, hw⟩⟩
+      subst e1
+      exact ⟨e5.symm, e4.symm, Or.inr ⟨e6.symm, e2.symm, hst, hu, hdc, hw, hrep⟩⟩
   · rw [h1] at h
     injection h with e1 e2 e3 e4 e5 e6
-    exact ⟨e5.symm, Or.inl ⟨e4.symm, e6.symm, e1.symm, e2.symm, hs⟩⟩
+    exact ⟨e5.symm, e4.symm, Or.inl ⟨e6.symm, e1.symm, e2.symm, hs⟩⟩
 
 /-- the self-locked re-entry comes from the row `w:304` of a writer whose disk writes are disabled -/
 theorem afterAnswer_reenterLocked_inv {cfg : Config} {now : Int} {keys : List Key} {rr : Option Range.ReqRange} {d : Disk}
@@ -406,14 +415,15 @@ theorem afterAnswer_reenterLocked_inv {cfg : Config} {now : Int} {keys : List Ke
     {d' : Disk} {client' ai' : Header} {cs' : List Contact} {tag : String}
     (h : afterAnswer cfg now keys rr d ai cs reval w sg resp = .reenterLocked d' client' ai' cs' tag) :
     cs' = cs ∧ d' = d ∧ tag = "w:304>" ∧ client' = client2Of sg ∧ resp.status = 304 ∧ sg.used.length > 0
+      ∧ (getCacheControlDirectives resp.header).doNotCache = false
       ∧ w.diskWritesDisabled = true := by
-  rcases afterAnswer_cases cfg now keys rr d ai cs reval w sg resp with ⟨a', h1, _⟩ | ⟨ai1, h1, hu, hst⟩ | ⟨ai1, h1, hs⟩
+  rcases afterAnswer_cases cfg now keys rr d ai cs reval w sg resp with ⟨a', h1, _⟩ | ⟨ai1, h1, hu, hst, hdc⟩ | ⟨ai1, h1, hs⟩
   · rw [h1] at h; cases h
   · rw [h1] at h
-    rcases row304_cases d ai1 cs w sg resp now with ⟨hw, h2⟩ | ⟨_, d1, h2⟩ | ⟨_, d1, h2⟩
+    rcases row304_cases d ai1 cs w sg resp now with ⟨hw, h2⟩ | ⟨_, d1, h2⟩ | ⟨_, d1, _, h2⟩
     · rw [h2] at h
       injection h with e1 e2 e3 e4 e5
-      exact ⟨e4.symm, e1.symm, e5.symm, e2.symm, hst, hu, hw⟩
+      exact ⟨e4.symm, e1.symm, e5.symm, e2.symm, hst, hu, hdc, hw⟩
     · rw [h2] at h; cases h
     · rw [h2] at h; cases h
   · rw [h1] at h; cases h
@@ -569,8 +579,8 @@ theorem stepOnce_reenter_authorization {cfg : Config} {origin : Bytes → Option
     (h : stepOnce cfg origin now req d client ai skip cs = .reenter d' client' ai' skip' cs' tag) :
     client'.get b!"authorization" = client.get b!"authorization" := by
   obtain ⟨_, reval, resp, _, _, haa⟩ := stepOnce_reenter_inv h
-  obtain ⟨_, hh⟩ := afterAnswer_reenter_inv haa
-  rcases hh with ⟨_, _, _, hc, _⟩ | ⟨_, _, hc, _⟩
+  obtain ⟨_, _, hh⟩ := afterAnswer_reenter_inv haa
+  rcases hh with ⟨_, _, hc, _⟩ | ⟨_, hc, _⟩
   · rw [hc]; exact client1Of_authorization _ _ _
   · rw [hc]; exact client2Of_authorization _ _ _
 
@@ -627,13 +637,13 @@ theorem stepOnce_stale_label {cfg : Config} {origin : Bytes → Option Origin} {
   subst hl
   exact ⟨_, rfl, endsStale_append_stale _⟩
 
-/-- the self-locked re-entry labels its answer `…:stale` only when `cache.Get`, finding the key held,
-    hands out the stale copy (`Freshness.get true … = .foundStale`) -/
+/-- the self-locked re-entry (`skipRevalidate = true` since the fix: commit for the two-values loop) labels its
+    answer `…:stale` only when `cache.Get` hands out the stale copy (`Freshness.get true … true … = .foundStale`) -/
 theorem lockedReentry_stale_inv {cfg : Config} {origin : Bytes → Option Origin} {now : Int} {req : Request}
     {d : Disk} {client ai : Header} {cs : List Contact}
     (h : EndsStale (lockedReentry cfg origin now req d client ai cs).label) :
     ∃ d' k s age, storageGet d (keysOf cfg req client) = (d', .found k s)
-      ∧ Freshness.get true (entryOf s) now cfg.force false (client.get b!"if-none-match")
+      ∧ Freshness.get true (entryOf s) now cfg.force true (client.get b!"if-none-match")
           (client.get b!"if-modified-since") cfg.sfx = .ok (.foundStale age) := by
   unfold lockedReentry at h
   dsimp only at h
@@ -645,7 +655,7 @@ theorem lockedReentry_stale_inv {cfg : Config} {origin : Bytes → Option Origin
   | found k s =>
     dsimp only at h
     refine ⟨d', k, s, ?_⟩
-    generalize Freshness.get true (entryOf s) now cfg.force false (client.get b!"if-none-match")
+    generalize Freshness.get true (entryOf s) now cfg.force true (client.get b!"if-none-match")
           (client.get b!"if-modified-since") cfg.sfx = g at h
     cases g with
     | panic site => exact absurd h (by dsimp only; decide)
